@@ -496,7 +496,7 @@ class C15(Check):
         elif cls == 'hmf_smooth':
             eps = rng.choice([0.1, 10.0, 1e3])
         else:
-            eps = rng.choice([None, None, 0.0, 0.1, 10.0])
+            eps = rng.choice([None, None, 0.0, 0.1, 10.0, 1e3])
         return {'kind': 'hmf', 'spectra': _lists(s), 'invvar': _lists(w), 'K': K, 'n_iter': rng.randint(2, 8),
                 'seed': rng.randint(0, 2 ** 31 - 1), 'epsilon': eps, 'nonnegative': nonneg,
                 'global_seeds': [rng.randint(0, 2 ** 31 - 1), rng.randint(0, 2 ** 31 - 1)]}
